@@ -46,11 +46,11 @@ CHECKS = {
          EXPL + "Termination is observed under a per-case watchdog with confirm-by-rerun (a confirmed hang is the failing observation of this property); draws and diagnostics are compared bitwise.",
          "Liveness is explored over generated completion orders, not proved; OS schedule not owned.",
          "DESIGN.md §5 C10"),
- "C11": ("proptest sample arrays (structure generated, bulk from seeded PRNG) vs independent f64 split-R-hat reference; metamorphic relations (affine, permutation, cross-parameter bitwise, separation monotone/unbounded); NaN/summary fuzzing of basic_stats and RunStats",
+ "C11": ("proptest sample arrays (structure generated, bulk from seeded PRNG) vs independent f64 split-R-hat reference; metamorphic relations (affine, permutation, cross-parameter bitwise, separation monotone/unbounded); NaN/summary fuzzing of basic_stats and RunStats; layout independence (Fortran-order, permuted, strided views)",
          EXPL + "Covers odd lengths, the 100-row switch, multimodal/trending/constant chains, NaN summaries of every length 1..256.",
          "Within-half variance divisor (n or n-1) not fixed by the statement: both accepted; |loc|/scale <= 100; relative tolerance 1e-4*(1+|loc|/scale/10) calibrated on the pinned tree.",
          "DESIGN.md §5 C11"),
- "C12": ("proptest sample arrays vs independent f64 Geyer reference with a monotone interval oracle in tau space; both autocovariance paths by construction (half-lengths 94..108 sweep), metamorphic relations (reversal, permutation, affine), ESS/N calibration on iid and AR(1)",
+ "C12": ("proptest sample arrays vs independent f64 Geyer reference with a monotone interval oracle in tau space; both autocovariance paths by construction (half-lengths 94..108 sweep), metamorphic relations (reversal, permutation, affine), ESS/N calibration on iid and AR(1); MultiChainTracker::stats(sample) vs RunStats::from(sample) for any tracker history",
          EXPL + "The interval oracle is sound because tau is monotone in every autocorrelation; it needs no ambiguity skipping.",
          "f32 error model of the autocorrelation: +-2e-5*(1+(loc/scale)^2/100); divisor n or n-1 accepted.",
          "DESIGN.md §5 C12"),
@@ -74,7 +74,7 @@ CHECKS = {
          EXPL + "Bitwise cell comparison with pairwise distinct values makes any index/axis mix-up visible; all zero-extent shapes and both entry points are generated.",
          "Readers are the same crate versions as the writers; an Err on a writable path is accepted (statement constrains successes only).",
          "DESIGN.md §5 C17"),
- "C18": ("proptest (n, d, seed) incl. 0 extents and seeds near u64::MAX: bitwise purity / prefix / seed-sensitivity oracles; pooled distribution tests (moments, KS, lag-1 correlations) at p ~ 1e-10",
+ "C18": ("proptest (n, d, seed) incl. 0 extents and seeds near u64::MAX: bitwise purity / prefix / seed-sensitivity oracles; pooled distribution tests (moments, KS, lag-1 correlations) at p ~ 1e-10; far-tail counts over 2.6e9 (quick) / 7.8e10 (thorough) seeded draws; purity inside rayon pools of 1..16 threads and across threads",
          EXPL + "Purity and prefix are exact bitwise relations; the distribution clause is a calibrated statistical test.",
          "Statistical thresholds |z| <= 6.5, KS lambda <= 3.5; OS-seeded init tested at the same thresholds.",
          "DESIGN.md §5 C18"),
